@@ -96,6 +96,8 @@ inductive Op where
   | envTty (k : Nat)           -- the environment changes the tty attributes / status flags / SIGINT handler
   | envFl (k : Nat)            --   (between two uses of a context manager; not something curtsies does)
   | envSigint (h : Handler)
+  | envSize (k : Nat)          -- the terminal is resized (0x0, 0 rows, 0 columns, normal): no field of the world changes;
+                               --   a render still hides/shows the cursor around whatever it draws
   deriving DecidableEq, Repr
 
 inductive Body (A : Type) where
@@ -217,6 +219,7 @@ def doOp (T : TtyOps A) (main : Bool) (stack : List (Ctx A × Saved A)) (o : Op)
   | .envTty k => ({ w with tty := T.envTty k w.tty }, false)
   | .envFl k => ({ w with fl := T.envFl k w.fl }, false)
   | .envSigint h => ({ w with sigint := h }, false)
+  | .envSize _ => (w, false)
 
 /-- observable snapshot after each step (what the harness can see) -/
 structure Obs (A : Type) where
